@@ -122,6 +122,10 @@ struct Gen<'r> {
     conn_budget: usize,
     /// receive buffer above 64 KiB: window scaling in use, probes around the unscaled SYN window
     bigwin: bool,
+    /// interface address (last octet 1 or 3) the peer's segments are addressed to, and the address the
+    /// listener is bound to (None = any)
+    da: u8,
+    bound: Option<u8>,
     stats: BTreeMap<String, u64>,
 }
 
@@ -179,8 +183,9 @@ impl<'r> Gen<'r> {
     fn seg(&mut self, seq: u32, ack: Option<u32>, fl: &str, win: u16, len: usize, po: String, opts: &str) -> Step {
         let ts = self.ts_opt();
         let line = format!(
-            "seg t={} sp={} dp={} seq={} ack={} fl={} win={} len={} po={} {} ts={}",
+            "seg t={} da={} sp={} dp={} seq={} ack={} fl={} win={} len={} po={} {} ts={}",
             self.t,
+            self.da,
             self.pp,
             self.lp,
             seq,
@@ -252,6 +257,21 @@ impl<'r> Gen<'r> {
         if self.rng.chance(3, 4) {
             self.ev(format!("poll t={} b=-", self.t));
         }
+    }
+    /// a SYN addressed to the interface's OTHER address: a bound listener must not take it (RST reply)
+    fn syn_to_other_address(&mut self) {
+        let keep = self.da;
+        self.da = if keep == 1 { 3 } else { 1 };
+        let o = self.syn_opts();
+        let w = self.p_win;
+        let seq = self.rng.next() as u32;
+        let las = self.last_ack_sent;
+        self.seg(seq, None, "S", w, 0, "0".into(), &o);
+        if self.rng.chance(1, 2) {
+            self.ev(format!("poll t={} b=-", self.t));
+        }
+        self.last_ack_sent = las;
+        self.da = keep;
     }
     /// one segment around the window the SYN / SYN|ACK put on the wire (unscaled field, at most 65535)
     /// and around the buffer size, sent before the socket has emitted anything else
@@ -368,6 +388,8 @@ impl<'r> Gen<'r> {
         let kind = self.rng.below(10);
         if kind < 4 {
             // client
+            self.da = 1;
+            self.bound = None;
             self.ev(format!("connect rp={} lp={}", self.pp, self.lp));
             self.poll();
             if self.rng.chance(1, 8) {
@@ -390,8 +412,13 @@ impl<'r> Gen<'r> {
             self.poll();
         } else if kind < 9 {
             // server
-            let a = if self.rng.chance(1, 5) { " a=1" } else { "" };
+            self.bound = *self.rng.pick(&[None, None, None, Some(1u8), Some(3u8)]);
+            self.da = self.bound.unwrap_or(*self.rng.pick(&[1u8, 1, 3]));
+            let a = match self.bound { Some(x) => format!(" a={}", x), None => String::new() };
             self.ev(format!("listen {}{}", self.lp, a));
+            if self.bound.is_some() && self.rng.chance(1, 4) {
+                self.syn_to_other_address();
+            }
             if self.rng.chance(1, 10) {
                 return;
             }
@@ -424,6 +451,10 @@ impl<'r> Gen<'r> {
                 let a = if self.rng.chance(1, 2) { None } else { self.s_iss.map(|i| wadd(i, 1)) };
                 self.seg(wadd(self.p_isn, 1 + len as i64), a, "R", w, 0, "0".into(), Gen::plain_opts());
                 self.new_peer();
+                // back in LISTEN the listener must still be bound to the address given to listen()
+                if self.bound.is_some() && self.rng.chance(1, 2) {
+                    self.syn_to_other_address();
+                }
                 let o = self.syn_opts();
                 let w = self.p_win;
                 self.seg(self.p_isn, None, "S", w, 0, "0".into(), &o);
@@ -450,6 +481,8 @@ impl<'r> Gen<'r> {
             }
         } else {
             // simultaneous open, SYN crossing
+            self.da = 1;
+            self.bound = None;
             self.ev(format!("connect rp={} lp={}", self.pp, self.lp));
             let o = self.syn_opts();
             let w = self.p_win;
@@ -727,8 +760,12 @@ impl<'r> Gen<'r> {
                 self.ev(e);
             }
             90 => {
-                // wrong ports: not for this socket
+                // wrong ports (or, one time in three, the interface's other address): not for this socket
                 let w = self.p_win;
+                let keep_da = self.da;
+                if self.rng.chance(1, 3) {
+                    self.da = if keep_da == 1 { 3 } else { 1 };
+                }
                 let (sp, dp) = if self.rng.chance(1, 2) { (self.pp.wrapping_add(1).max(1), self.lp) } else { (self.pp, self.lp.wrapping_add(1).max(1)) };
                 let fl = *self.rng.pick(&["", "S", "R", "F"]);
                 let (osp, odp) = (self.pp, self.lp);
@@ -740,6 +777,7 @@ impl<'r> Gen<'r> {
                 self.last_ack_sent = las;
                 self.pp = osp;
                 self.lp = odp;
+                self.da = keep_da;
             }
             91 => {
                 // invalid flag combinations: dropped by the parser
@@ -849,6 +887,8 @@ fn gen_case(rng: &mut Rng, id: String, tier: &str, stats: &mut BTreeMap<String, 
         s_ws: None,
         conn_budget: ISN_COUNT - 1,
         bigwin,
+        da: 1,
+        bound: None,
         stats: BTreeMap::new(),
     };
     let max_steps = if tier == "thorough" { 220 } else { 110 };
